@@ -50,6 +50,12 @@ cart_var_set (SF_PRIVATE *psf, const SF_CART_INFO * info, size_t datasize)
 	if (info == NULL)
 		return SF_FALSE ;
 
+	/* tag_text_size is only there to be read if the fixed part of the struct is. */
+	if (datasize < offsetof (SF_CART_INFO, tag_text))
+	{	psf->error = SFE_BAD_CART_INFO_SIZE ;
+		return SF_FALSE ;
+		} ;
+
 	if (cart_min_size (info) > datasize)
 	{	psf->error = SFE_BAD_CART_INFO_SIZE ;
 		return SF_FALSE ;
